@@ -21,6 +21,20 @@ import (
 type c18Rcpt struct {
 	Accept  bool `json:"accept"`  // accepted at RCPT time
 	Deliver bool `json:"deliver"` // positive status after DATA
+	// Code: reply code of a negative status (0 = 552); any 4xx/5xx is a
+	// recipient's own verdict, 421 included
+	Code int `json:"code,omitempty"`
+	// FailedMailAfter: after this recipient the client calls Mail again and
+	// the call fails locally (SMTPUTF8 requested, not offered): nothing is
+	// sent, the transaction and its recipients stand
+	FailedMailAfter bool `json:"failed_mail_after,omitempty"`
+}
+
+func (rc c18Rcpt) code() int {
+	if rc.Code >= 400 && rc.Code <= 599 {
+		return rc.Code
+	}
+	return 552
 }
 
 type c18Txn struct {
@@ -60,7 +74,7 @@ func c18Run(c c18Case) Verdict {
 			script.Rcpt = append(script.Rcpt, harness.Decision{})
 			d := harness.Decision{}
 			if !rc.Deliver {
-				d = harness.Decision{Kind: "smtp", Code: 552, Enh: [3]int{5, 2, 2}, Msg: "verdict-for-" + addr}
+				d = harness.Decision{Kind: "smtp", Code: rc.code(), Enh: [3]int{rc.code() / 100, 2, 2}, Msg: "verdict-for-" + addr}
 			}
 			plan.Status = append(plan.Status, harness.StatusCall{Rcpt: addr, D: d, AfterRead: true, Gate: tx.SlowAt == len(plan.Status)+1})
 		}
@@ -102,6 +116,12 @@ func c18Run(c c18Case) Verdict {
 					return
 				}
 				any = any || rc.Accept
+				if rc.FailedMailAfter {
+					if err := cl.Mail("again@x", &smtp.MailOptions{UTF8: true}); err == nil {
+						setupErr = fmt.Errorf("txn %d: Mail with SMTPUTF8 succeeded although the server does not offer it", ti)
+						return
+					}
+				}
 			}
 			if !any {
 				// nothing to deliver: abandon the transaction
@@ -211,6 +231,16 @@ func c18Run(c c18Case) Verdict {
 	if slowed > 0 {
 		v.Classes = append(v.Classes, "slow_delivery_to_a_recipient")
 	}
+	for _, tx := range c.Txns {
+		for _, rc := range tx.Rcpts {
+			if rc.FailedMailAfter {
+				v.Classes = append(v.Classes, "failed_mail_inside_transaction")
+			}
+			if rc.Accept && !rc.Deliver && rc.code() == 421 {
+				v.Classes = append(v.Classes, "recipient_verdict_421")
+			}
+		}
+	}
 	if refusedAtRcpt {
 		v.Classes = append(v.Classes, "recipient_refused_at_rcpt")
 	}
@@ -246,7 +276,7 @@ func c18Run(c c18Case) Verdict {
 				want = append(want, c18Status{addr, nil})
 			} else {
 				anyNeg = true
-				want = append(want, c18Status{addr, &smtp.SMTPError{Code: 552, EnhancedCode: smtp.EnhancedCode{5, 2, 2}, Message: "verdict-for-" + addr}})
+				want = append(want, c18Status{addr, &smtp.SMTPError{Code: rc.code(), EnhancedCode: smtp.EnhancedCode{rc.code() / 100, 2, 2}, Message: "verdict-for-" + addr}})
 			}
 		}
 		if len(want) == 0 {
@@ -556,7 +586,12 @@ func TestC18(t *testing.T) {
 		for i, n := 0, rapid.IntRange(1, 3).Draw(rt, "ntxn"); i < n; i++ {
 			tx := c18Txn{Callback: rapid.Bool().Draw(rt, "callback"), Reset: rapid.IntRange(0, 3).Draw(rt, "reset") == 0}
 			for j, m := 0, rapid.IntRange(1, 3).Draw(rt, "nrcpt"); j < m; j++ {
-				tx.Rcpts = append(tx.Rcpts, c18Rcpt{Accept: rapid.IntRange(0, 3).Draw(rt, "accept") != 0, Deliver: rapid.Bool().Draw(rt, "deliver")})
+				rc := c18Rcpt{Accept: rapid.IntRange(0, 3).Draw(rt, "accept") != 0, Deliver: rapid.Bool().Draw(rt, "deliver")}
+				if rapid.Bool().Draw(rt, "other_code") {
+					rc.Code = rapid.SampledFrom([]int{421, 450, 451, 452, 500, 550, 554, 599}).Draw(rt, "code")
+				}
+				rc.FailedMailAfter = rapid.IntRange(0, 7).Draw(rt, "failed_mail") == 0
+				tx.Rcpts = append(tx.Rcpts, rc)
 			}
 			// a few slow deliveries (each costs its pause in wall-clock time)
 			if rapid.IntRange(0, 999).Draw(rt, "slow")%30 == 7 {
